@@ -97,7 +97,8 @@ Proof.
   destruct Hv; unfold st_go; simpl; intros x t' e0 Ql Qc Qe; lk; simpl in *; try done; try (by eapply Hc); eauto 6.
   all: try (specialize (Hc _ _ _ Ht Qc Qe); try site_inv; subst;
             solve [ match goal with H : st_pc _ = _ |- _ => rewrite H in Hc; naive_solver end
-                  | destruct Hpc as [Hpc|Hpc]; rewrite Hpc in Hc; naive_solver ]).
+                  | destruct Hpc as [Hpc|Hpc]; rewrite Hpc in Hc; naive_solver
+                  | destruct Hpc as [Hpc|[Hpc _]]; rewrite Hpc in Hc; naive_solver ]).
   - simpl in Hok. destruct Hok as [?|[_ (t0 & Ht0 & Hp0)]]; [congruence|]. simplify_eq. naive_solver.
   - destruct (connend_cancel_ok sid x0) as (_ & -> & _). eapply Hc; eauto using connend_cancel_ok3.
   - destruct (shnet_cancel_ok x0) as (_ & -> & _). eapply Hc; eauto using shnet_cancel_ok3.
@@ -115,11 +116,16 @@ Proof.
     + destruct (st_cancel y) as [e|] eqn:Hcy. { intros Hx. specialize (Hc e). rewrite Hx in Hc. by specialize (Hc eq_refl). }
       exfalso. eapply (vi_ended_cancel _ _ I); eauto. by rewrite <- Ho.
     + (* the connection ends now *)
-      inversion Hv; subst; [by rewrite H1 in Hy; simplify_eq; eapply (vi_ended_cancel _ _ I) in Hev; eauto; rewrite <- ?Ho; eauto; destruct Hok as [_ []]|].
-      simpl in H1. rewrite lookup_insert_ne in H1 by (apply (vi_sys _ _ I) in Hy; lia).
-      rewrite lookup_fmap, Hy in H1. simpl in H1. simplify_eq. unfold connend_cancel in *.
-      rewrite <- Ho, Hos, Hfy. rewrite bool_decide_eq_true_2 by done.
-      destruct (st_cancel y) eqn:Hcy; simpl; rewrite ?Hcy; done.
+      inversion Hv; subst.
+      * by rewrite H1 in Hy; simplify_eq; eapply (vi_ended_cancel _ _ I) in Hev; eauto; rewrite <- ?Ho; eauto; destruct Hok as [_ []].
+      * simpl in H1. rewrite lookup_insert_ne in H1 by (apply (vi_sys _ _ I) in Hy; lia).
+        rewrite lookup_fmap, Hy in H1. simpl in H1. simplify_eq. unfold connend_cancel in *.
+        rewrite <- Ho, Hos, Hfy. rewrite bool_decide_eq_true_2 by done.
+        destruct (st_cancel y) eqn:Hcy; simpl; rewrite ?Hcy; done.
+      * (* delivered by the network stop: every call in flight was cancelled first *)
+        simpl in H1. rewrite lookup_insert_ne in H1 by (pose proof (vi_sys _ _ I _ _ Hy); lia).
+        assert (t' = y) as -> by congruence.
+        apply (Hcn _ _ Hy); [|done]. by destruct (st_op y).
   - assert (client_op (st_op t') = true) as Hcl by (destruct (st_op t'); done).
     destruct (new_thread_client _ _ _ _ N Hcl) as (op & -> & Hop). rewrite Hop in Hos.
     destruct (vsr_connend_bwd _ _ _ _ _ Hv Hev) as [Hev'|?]; [|done].
@@ -143,31 +149,67 @@ Lemma ds_thr_bwd cfg s it s' (I : SvInv cfg s) (Hv : vsr cfg s it s') :
   ∀ x t' sid, v_thr s' !! x = Some t' → st_op t' = SConnEnd sid →
     (∃ t, v_thr s !! x = Some t ∧ st_op t = SConnEnd sid ∧
           (st_pc t' = st_pc t ∨ st_pc t' = VEnd ∨ (st_pc t = VDsFlag ∧ v_shut s = false) ∨ (st_pc t ≠ VDsFlag ∧ st_pc t ≠ VEnd))) ∨
-    (v_thr s !! x = None ∧ st_pc t' = VDsFlag ∧ (it = VConnEnd sid ∨ v_shut s = true)).
+    (v_thr s !! x = None ∧ st_pc t' = VDsFlag ∧ x = v_next s ∧ it = VConnEnd sid ∧ ev_in (SvConnEnd sid) s').
 Proof.
   pose proof (next_fresh _ _ I) as Hnx.
-  destruct Hv; unfold st_go; simpl in *; intros x t' sid0 Ql Qo; lk; simpl in *; try done; eauto 10.
+  destruct Hv; unfold st_go, ev_in; simpl in *; intros x t' sid0 Ql Qo; lk; simpl in *; try done; eauto 10.
   all: try (left; eexists; split; [done|]; split; [done|]; try site_inv; subst;
             solve [ match goal with H : st_pc _ = _ |- _ => rewrite H; naive_solver end
-                  | destruct Hpc as [Hpc|Hpc]; rewrite Hpc; naive_solver ]).
+                  | destruct Hpc as [Hpc|Hpc]; rewrite Hpc; naive_solver
+                  | destruct Hpc as [Hpc|[Hpc _]]; rewrite Hpc; naive_solver ]).
   - subst op. done.
-  - right. split; [done|]. split; [done|]. left. congruence.
+  - right. simplify_eq. split_and!; try done. left.
   - destruct (connend_cancel_ok sid x0) as (Ho & Hp & _). rewrite Ho in Qo. rewrite Hp. eauto 10.
   - destruct (shnet_cancel_ok x0) as (Ho & Hp & _). rewrite Ho in Qo. rewrite Hp. eauto 10.
+  - right. simplify_eq. split_and!; try done. left.
 Qed.
 
 Lemma step_vi_ds_ended cfg s it s' (I : SvInv cfg s) (Hok : sitem_ok s it) (Hv : vsr cfg s it s') :
-  ∀ tid t sid, v_thr s' !! tid = Some t → st_op t = SConnEnd sid →
-      (ev_in (SvConnEnd sid) s' ∨ v_shut s' = true) ∧ (st_pc t = VDsFlag ∨ st_pc t = VEnd ∨ ev_in (SvConnEnd sid) s').
+  ∀ tid t sid, v_thr s' !! tid = Some t → st_op t = SConnEnd sid → ev_in (SvConnEnd sid) s'.
 Proof.
-  intros x t' sid Ql Qo. pose proof (vsr_trace_fwd _ _ _ _ (SvConnEnd sid) Hv) as Hev. pose proof (vsr_shut_mono _ _ _ _ Hv) as Hsh.
-  destruct (ds_thr_bwd _ _ _ _ I Hv _ _ _ Ql Qo) as [(y & Hy & Hoy & Hp)|(Hn & Hp & Hnew)].
-  - destruct (vi_ds_ended _ _ I _ _ _ Hy Hoy) as [H1 H2]. clear Hok. split; [destruct H1; auto|].
-    destruct Hp as [Hp|[Hp|[[Hp Hs]|[Hp1 Hp2]]]].
-    + rewrite Hp. destruct H2 as [?|[?|?]]; auto.
-    + auto.
-    + right; right. apply Hev. destruct H1 as [?|?]; [done|congruence].
-    + right; right. apply Hev. destruct H2 as [?|[?|?]]; done.
-  - split; [|auto]. destruct Hnew as [->|?]; [|auto]. left. inversion Hv; subst; [congruence|].
-    unfold ev_in; simpl. left.
+  intros x t' sid Ql Qo. pose proof (vsr_trace_fwd _ _ _ _ (SvConnEnd sid) Hv) as Hev.
+  destruct (ds_thr_bwd _ _ _ _ I Hv _ _ _ Ql Qo) as [(y & Hy & Hoy & Hp)|(Hn & Hp & _ & _ & Hnew)]; [|done].
+  apply Hev. eapply (vi_ds_ended _ _ I); eauto.
+Qed.
+
+Lemma step_vi_ds_unique cfg s it s' (I : SvInv cfg s) (Hok : sitem_ok s it) (Hv : vsr cfg s it s') :
+  ∀ t1 t2 x1 x2 sid, v_thr s' !! t1 = Some x1 → v_thr s' !! t2 = Some x2 → st_op x1 = SConnEnd sid → st_op x2 = SConnEnd sid → t1 = t2.
+Proof.
+  intros t1 t2 x1 x2 sid H1 H2 O1 O2.
+  destruct (ds_thr_bwd _ _ _ _ I Hv _ _ _ H1 O1) as [(y1 & Hy1 & Ho1 & _)|(Hn1 & _ & -> & -> & _)];
+  destruct (ds_thr_bwd _ _ _ _ I Hv _ _ _ H2 O2) as [(y2 & Hy2 & Ho2 & _)|(Hn2 & _ & -> & E2 & _)]; try done.
+  - eapply (vi_ds_unique _ _ I); eauto.
+  - exfalso. subst it. destruct Hok as [_ Hne]. apply Hne. eapply (vi_ds_ended _ _ I); eauto.
+  - exfalso. destruct Hok as [_ Hne]. apply Hne. eapply (vi_ds_ended _ _ I); eauto.
+Qed.
+
+Lemma connects_app l1 l2 : connects (l1 ++ l2) = connects l1 ++ connects l2.
+Proof. apply omap_app. Qed.
+Lemma connects_fin_evs tid pc : connects (fin_evs tid pc) = [].
+Proof. by destruct pc. Qed.
+Lemma elem_of_connects sid tr : sid ∈ connects tr ↔ SvConnect sid ∈ tr.
+Proof.
+  unfold connects. rewrite elem_of_list_omap. split.
+  - intros (e & He & Hm). destruct e; simplify_eq. done.
+  - intros He. exists (SvConnect sid). done.
+Qed.
+
+Lemma step_vi_connect_once cfg s it s' (I : SvInv cfg s) (Hok : sitem_ok s it) (Hv : vsr cfg s it s') : NoDup (connects (v_trace s')).
+Proof.
+  pose proof (vi_connect_once _ _ I) as Hc.
+  destruct Hv; unfold st_go; simpl; rewrite ?connects_app, ?connects_fin_evs; simpl; try done.
+  all: apply NoDup_cons; split; [|done]; rewrite elem_of_connects; exact Hok.
+Qed.
+
+Lemma step_vi_ds_noclear cfg s it s' (I : SvInv cfg s) (Hok : sitem_ok s it) (Hv : vsr cfg s it s') :
+  ∀ tid t sid, v_thr s' !! tid = Some t → st_op t = SConnEnd sid →
+    if sc_noclear cfg then st_pc t = VDsFlag ∨ st_pc t = VDsNoClear ∨ st_pc t = VEnd else st_pc t ≠ VDsNoClear.
+Proof.
+  pose proof (vi_ds_noclear _ _ I) as Hc. pose proof (next_fresh _ _ I) as Hnx.
+  destruct Hv; unfold st_go; simpl in *; intros x t' sid0 Ql Qo; lk; simpl in *; try done; try (by eapply Hc).
+  all: try (specialize (Hc _ _ _ Ht Hop)).
+  all: try (by (destruct (sc_noclear cfg); auto)).
+  all: try (try site_inv; destruct Hop as [Hop|Hop]; congruence).
+  all: try (try site_inv; congruence).
+  all: try (site_inv; destruct (sc_noclear cfg) eqn:Hnc; (try destruct Hc as [Hc|[Hc|Hc]]); try congruence; auto).
 Qed.
